@@ -1063,6 +1063,28 @@ def oracle_C07(inp, meta=None):
     raise Unreachable("no C07 oracle for these inputs")
 
 
+def oracle_C06(inp, meta=None):
+    from d42.representation import represent
+    from uuid import UUID                      # names the printed text may use
+    from datetime import datetime, date        # noqa: F401
+    import datetime as datetime_mod            # noqa: F401
+    S_ = build(inp["schema"])
+    text = repr(S_)
+    if text != represent(S_) or text != repr(S_):
+        return True, "repr is not deterministic / differs from represent()"
+    env = {"schema": schema, "optional": optional, "UUID": UUID, "datetime": _dt, "date": _dt.date}
+    try:
+        R = eval(text, {"__builtins__": {}}, env)
+    except Exception as e:
+        try:
+            R = eval(text, {"__builtins__": {}}, {**env, "datetime": _dt.datetime})
+        except Exception as e2:
+            return True, f"repr {text!r} does not evaluate: {e2!r}"
+    if not (R == S_) or repr(R) != text:
+        return True, f"repr {text!r} rebuilds {R!r} with props {R.props!r}, original props {S_.props!r}"
+    return False, f"{text} round-trips"
+
+
 _custom_cache = {}
 
 
@@ -1128,7 +1150,7 @@ def oracle_C16(inp, meta=None):
 
 
 ORACLES.update({"C14": oracle_C14, "C13": oracle_C13, "C15": oracle_C15, "C16": oracle_C16,
-                "C07": oracle_C07})
+                "C07": oracle_C07, "C06": oracle_C06})
 ORACLES.update({"C10": oracle_C10, "C11": oracle_C11, "C01": oracle_C01, "C04": oracle_C04,
                 "C05": oracle_C05, "C12": oracle_C12})
 
